@@ -260,6 +260,38 @@ func stressWorker(g int, cycles int, seed int64, lg *lockedLog, shared *strmap.S
 			if v, found := s2.Get(fmt.Sprint("a", g)); !found || v != "1" {
 				ok = false
 			}
+			// larger private maps through every load path (sizes on both sides of any small/large split a loader may have)
+			nbig := []int{40, 130, 300, 1100}[(g+c)%4]
+			bk, bv := make([]string, nbig), make([]string, nbig)
+			bm := make(map[string]string, nbig)
+			bi := make(map[string]int, nbig)
+			ints := make([]int, nbig)
+			for i := range bk {
+				bk[i] = fmt.Sprint("k", g, "-", c, "-", i)
+				bv[i] = "val:" + bk[i]
+				bm[bk[i]], bi[bk[i]], ints[i] = bv[i], i, i
+			}
+			var s3 *strmap.Str2Str
+			var m3 *strmap.StrMap[int]
+			if c%2 == 0 {
+				s3, m3 = strmap.NewStr2StrFromMap(bm), strmap.NewFromMap(bi)
+			} else {
+				s3, m3 = strmap.NewStr2StrFromSlice(bk, bv), strmap.NewFromSlice(bk, ints)
+			}
+			if s3.Len() != nbig || m3.Len() != nbig {
+				ok = false
+			}
+			for i := 0; i < nbig; i += 7 {
+				if v, found := s3.Get(bk[i]); !found || v != bv[i] {
+					ok = false
+				}
+				if v, found := m3.Get(bk[i]); !found || v != i {
+					ok = false
+				}
+			}
+			if err := s3.LoadFromMap(bm); err != nil || s3.Len() != nbig {
+				ok = false
+			}
 			fs, err := uf.ConvertUnknownFields(data[:0:0])
 			_ = fs
 			_ = err
